@@ -874,7 +874,15 @@ func runLifeCase(c cfg, seed uint64, o lifeOpts, keys map[string]struct{}) (eval
 		go func() {
 			ctx, cancel := context.WithTimeout(context.Background(), 20*time.Second)
 			defer cancel()
-			stopErrCh <- gnet.Stop(ctx, life.addr)
+			err := gnet.Stop(ctx, life.addr)
+			// the engine is entered into the package's table only after its start has completed (OnBoot comes earlier):
+			// a package-level Stop in that window is refused with the in-shutdown error, i.e. nothing was requested yet
+			for k := 0; k < 400 && errors.Is(err, errorx.ErrEngineInShutdown) && !life.waitDone(time.Millisecond); k++ {
+				s.key(c.class() + "|package-Stop-refused-before-start-completed")
+				time.Sleep(5 * time.Millisecond)
+				err = gnet.Stop(ctx, life.addr)
+			}
+			stopErrCh <- err
 		}()
 	default:
 		stopErrCh <- nil
